@@ -35,6 +35,7 @@ pub open spec fn image_wf(start: int, f: Seq<BatchV>, ix: Seq<Index>) -> bool {
 
 impl Segment {
     pub uninterp spec fn spec_is_expired(&self, now: IggyTimestamp) -> bool;
+    // LINKED: units/retention/lemmas.rs, harness [C14.link.recovery.is_expired], proves this contract from the real function (mirror edits there)
     #[verifier::external_body]
     pub fn is_expired(&self, now: IggyTimestamp) -> (r: bool)
         ensures r == self.spec_is_expired(now), !self.is_closed ==> !r,
@@ -62,8 +63,14 @@ impl Segment {
     // Segment::load_message_checksums / load_message_ids read the log back (C02/C18 units)
     #[verifier::external_body]
     pub fn load_message_checksums(&self) -> (r: Result<(), IggyError>) { unimplemented!() }
+    // Segment::load_message_ids = `self.log_reader.as_ref().unwrap().load_message_ids_impl()`. The wrapper is extracted in no unit, so this
+    // contract is STATED, NOT LINKED; what it wraps is proved in unit read_log ([C18.reload.ids]) under `reader_ok`: the published log
+    // size (the cell `log_size_bytes`, shared with the reader) is the length of the file — otherwise the reload stops short of the
+    // file's end and forgets ids. The `requires` (the unwrap, and reader_ok in this unit's words) was added when the links were made:
+    // the stub had no precondition.
     #[verifier::external_body]
     pub fn load_message_ids(&self) -> (r: Result<Vec<u128>, IggyError>)
+        requires self.log_reader is Some, self.log_size_bytes.v == file_bytes(self.log_reader->0.file()),
         ensures r is Ok ==> r->Ok_0@ == ids_of(flat(self.log_reader->0.file())),
     { unimplemented!() }
 }
